@@ -18,15 +18,16 @@
 (***************************************************************************)
 EXTENDS Naturals, Sequences, FiniteSets, TLC, Json
 
-CONSTANTS Thr, Steps, SharedWorkspace, Export
+CONSTANTS Thr, Steps, SharedWorkspace, LazyTable, Export
 
-VARIABLES pc,      \* pc[t] = number of steps thread t has completed
+VARIABLES table,   \* hypothetical lazily built per-instance table: "none" -> "claimed" (being built by one call) -> "ready"
+          pc,      \* pc[t] = number of steps thread t has completed
           acc,     \* acc[t] = the thread's own partial result (a checksum of what it computed so far)
           ws,      \* the hypothetical shared workspace cell
           sched    \* history: run-length encoded schedule so far (hidden from the state fingerprint by VIEW)
 
-vars == <<pc, acc, ws, sched>>
-view == <<pc, acc, ws>>
+vars == <<table, pc, acc, ws, sched>>
+view == <<table, pc, acc, ws>>
 
 Input(t)  == IF t = "A" THEN 3 ELSE 5            \* each thread transforms its own data
 Table(i)  == 7 * i + 1                           \* read-only instance tables (twiddles, index maps)
@@ -36,7 +37,7 @@ RECURSIVE SumTo(_, _)
 SumTo(t, i) == IF i = 0 THEN 0 ELSE SumTo(t, i - 1) + Contribution(t, i)
 Sem(t) == SumTo(t, Steps)                        \* result of the call when run alone
 
-Init == /\ pc = [t \in Thr |-> 0] /\ acc = [t \in Thr |-> 0] /\ ws = 0 /\ sched = << >>
+Init == /\ table = (IF LazyTable THEN "none" ELSE "ready") /\ pc = [t \in Thr |-> 0] /\ acc = [t \in Thr |-> 0] /\ ws = 0 /\ sched = << >>
 
 Extend(s, t) == IF s # << >> /\ s[Len(s)][1] = t
                 THEN [s EXCEPT ![Len(s)] = <<t, s[Len(s)][2] + 1>>]
@@ -45,13 +46,20 @@ Extend(s, t) == IF s # << >> /\ s[Len(s)][1] = t
 \* one yield-point step of thread t
 Step(t) ==
     /\ pc[t] < Steps
-    /\ LET i == pc[t] + 1 IN
-       IF SharedWorkspace
-       THEN \* defective variant: the step parks its operand in the shared cell in one step and uses it in the next
-            /\ ws' = Input(t)
-            /\ acc' = [acc EXCEPT ![t] = @ + (IF i = 1 THEN Input(t) ELSE ws) * Table(i)]
-       ELSE /\ acc' = [acc EXCEPT ![t] = @ + Contribution(t, i)]
-            /\ UNCHANGED ws
+    /\ LET i == pc[t] + 1
+           \* second hypothetical defect: the instance builds a table on first use; the flag marks "claimed", not "ready",
+           \* so a call that overlaps the builder's first call skips the initialisation and reads an empty table
+           usesEmptyTable == LazyTable /\ i = 1 /\ table = "claimed"
+       IN
+       /\ table' = IF LazyTable /\ i = 1 /\ table = "none" THEN "claimed"
+                   ELSE IF LazyTable /\ i = 2 /\ table = "claimed" /\ acc[t] # 0 THEN "ready"     \* the builder finishes in its second step
+                   ELSE table
+       /\ IF SharedWorkspace
+          THEN \* defective variant: the step parks its operand in the shared cell in one step and uses it in the next
+               /\ ws' = Input(t)
+               /\ acc' = [acc EXCEPT ![t] = @ + (IF i = 1 THEN Input(t) ELSE ws) * Table(i)]
+          ELSE /\ acc' = [acc EXCEPT ![t] = @ + (IF usesEmptyTable THEN 0 ELSE Contribution(t, i))]
+               /\ UNCHANGED ws
     /\ pc' = [pc EXCEPT ![t] = @ + 1]
     /\ sched' = Extend(sched, t)
 
@@ -62,7 +70,7 @@ Spec == Init /\ [][Next]_vars
 \* every completed call returns what the isolated call returns, whatever the interleaving
 Deterministic == \A t \in Thr : pc[t] = Steps => acc[t] = Sem(t)
 \* the instance is never written: in the correct variant ws keeps its initial value
-InstanceImmutable == ~SharedWorkspace => ws = 0
+InstanceImmutable == (~SharedWorkspace => ws = 0) /\ (~LazyTable => table = "ready")
 
 ExportSchedule == Done /\ Export => PrintT(<<"SCN", ToJson(sched)>>)
 Inv == Deterministic /\ InstanceImmutable /\ ExportSchedule
